@@ -30,6 +30,32 @@ impl Debug for ProgramLines {
     }
 }
 
+/// Returns the text of each of the given tokens, as they should be shown
+/// (separated by spaces) when listing a line.
+pub fn tokens_to_strings(tokens: &[Token]) -> Vec<String> {
+    tokens
+        .iter()
+        .enumerate()
+        .map(|(i, token)| {
+            let text = token.to_string();
+            // Whitespace is insignificant, so a numeral that directly follows
+            // an identifier must not start with a digit, or it would be read
+            // back as part of the identifier. Such a numeral can only have
+            // been entered with a leading decimal point (e.g. `X .5`), so
+            // spell it that way again.
+            let follows_symbol = i > 0 && matches!(tokens[i - 1], Token::Symbol(_));
+            if follows_symbol && matches!(token, Token::NumericLiteral(_)) {
+                if let Some(fraction) = text.strip_prefix("0.") {
+                    return format!(".{fraction}");
+                } else if text == "0" {
+                    return ".0".to_string();
+                }
+            }
+            text
+        })
+        .collect()
+}
+
 impl ProgramLines {
     pub fn first(&self) -> Option<u64> {
         self.sorted_line_numbers.first().copied()
@@ -89,28 +115,7 @@ impl ProgramLines {
         let mut lines: Vec<String> = Vec::with_capacity(self.numbered_lines.len());
 
         for (line_number, tokens) in self.list_tokens() {
-            let line = tokens
-                .iter()
-                .enumerate()
-                .map(|(i, token)| {
-                    let text = token.to_string();
-                    // Whitespace is insignificant, so a numeral that directly follows
-                    // an identifier must not start with a digit, or it would be read
-                    // back as part of the identifier. Such a numeral can only have
-                    // been entered with a leading decimal point (e.g. `X .5`), so
-                    // spell it that way again.
-                    let follows_symbol = i > 0 && matches!(tokens[i - 1], Token::Symbol(_));
-                    if follows_symbol && matches!(token, Token::NumericLiteral(_)) {
-                        if let Some(fraction) = text.strip_prefix("0.") {
-                            return format!(".{fraction}");
-                        } else if text == "0" {
-                            return ".0".to_string();
-                        }
-                    }
-                    text
-                })
-                .collect::<Vec<String>>()
-                .join(" ");
+            let line = tokens_to_strings(tokens).join(" ");
             let line_source = format!("{} {}\n", line_number, line);
             lines.push(line_source);
         }
